@@ -8,6 +8,7 @@
   `c.blocksize` is the object's `blocksize` attribute (bits) that `HMAC.setkey/__call__` read.
 -/
 import Proofs.Lemmas.BlakeHmac
+import Proofs.C13
 namespace Proofs.C13_Blake
 open Model Model.Hmac Proofs.Lemmas
 
@@ -49,6 +50,27 @@ theorem key_long_blake {c : Blake.Cfg} {V : Spec.Blake.Variant} (h : BlakeEnd.Pa
   · simp [Hmac.setkey, hl, hd, hlt, pure, Except.pure, bind, Except.bind]
   · have : c.blocksize / 8 - (Spec.Blake.hash V key (8 * key.length) 0).length = 0 := by omega
     simp [Hmac.setkey, hl, hd, hlt, this, pure, Except.pure, bind, Except.bind]
+
+/-- **hmac_after_history_blake.**  The Blake object handed to HMAC may have ANY history — a salted one-shot call, a salted
+    stream finished or abandoned, a refused call: `s` is any object state, its salt words included — and the MAC is still
+    RFC 2104 over the UNSALTED BLAKE-n: `self.h(x)` is `initstate(salt=0)` + `update(x,padding=True)`, and `initstate`
+    builds the salt words from its argument every time.  (`σ`, `wrap`: whatever the line keeps of the object.) -/
+theorem hmac_after_history_blake {c : Blake.Cfg} {V : Spec.Blake.Variant} (h : BlakeEnd.Pair c V) {σ : Type}
+    (wrap : Blake.State → σ) (s : σ) (key msg : List Nat) (hkey : ∀ x ∈ key, x < 256) (hmsg : ∀ x ∈ msg, x < 256) :
+    (HmacObj.hmac (fun (_ : σ) x => (wrap (Blake.update c (Blake.initstate c 0) x none true).1,
+                                      (Blake.update c (Blake.initstate c 0) x none true).2)) c.blocksize s key msg).2.2
+      = .ok (Spec.rfc2104 (fun m => Spec.Blake.hash V m (8 * m.length) 0) (c.blocksize / 8) key msg) := by
+  exact (Proofs.C13.hmac_history_free
+      (fun (_ : σ) x => (wrap (Blake.update c (Blake.initstate c 0) x none true).1,
+                         (Blake.update c (Blake.initstate c 0) x none true).2))
+      (fun m => Blake.call c m 0 none) (fun _ _ => rfl) c.blocksize s key msg).trans
+    (hmac_refines_blake h key msg hkey hmsg)
+
+/-- the salt of an earlier use is not an input of the next `initstate`: the state a call starts from is a function of the
+    configuration and of THIS call's salt alone -/
+theorem blake_call_ignores_history (c : Blake.Cfg) (salt : Nat) (M : List Nat) (bitlen : Option Nat) :
+    Blake.call c M salt bitlen = (Blake.update c (Blake.initstate c salt) M bitlen true).2 ∧
+    (Blake.initstate c 0).salt = Blake.saltWords c.wsize 0 := ⟨rfl, rfl⟩
 
 /-! non-vacuity -/
 example : BlakeEnd.Pair Blake.blake256 Spec.Blake.blake256 := Or.inr (Or.inl ⟨rfl, rfl⟩)
